@@ -93,6 +93,14 @@ Theorem level_paths_confined :
     = resolve cwd root ++ dims_components lower dm ++ [pad 10 2 level].
 Proof. exact level_location_resolves. Qed.
 
+(* FileCache.level_location for every directory layout that has one (tc, mp, tms, arcgis): root, dimension
+   directories, one safe level name. *)
+Theorem file_level_paths_confined :
+  forall (lower : str -> str) (cwd : list str) (layout : string) (root : str) (dm : dims) (level : Z) (p : str),
+    file_level_location lower layout root dm level = Some p ->
+    exists n, safe n /\ resolve cwd p = resolve cwd root ++ dims_components lower dm ++ [n].
+Proof. exact file_level_location_resolves. Qed.
+
 (* TileLocker.lock_filename: for a cache id without '/' (prefix + md5 hex digest) and arbitrary integer
    coordinates the lock file is a single safe name directly in the lock directory. *)
 Theorem lock_paths_confined :
